@@ -597,10 +597,9 @@ func (pr *ProtoArray) OnPrune(ctx context.Context, anchorRoot Root, anchorSlot S
 		return HeadUnknownErr
 	}
 	// Remove the `self.indices` and `self.blockSlots` key/values for all the to-be-deleted nodes.
-	j := 0
 	var pruned []prunedNode
 	for i := pr.indexOffset; i < anchorIndex; i++ {
-		node := &pr.nodes[j]
+		node := &pr.nodes[i-pr.indexOffset]
 		if pr.sink != nil {
 			canonical := node.BestDescendant == headIndex
 			pruned = append(pruned, prunedNode{canonical, node})
